@@ -12,6 +12,7 @@ type base struct {
 var (
 	updFreq3Tot2 = CtxUpdate{Name: "freq3total2", Freq: 3, Total: 2}
 	updFreq1Tot2 = CtxUpdate{Name: "freq1total2", Freq: 1, Total: 2}
+	updTimeout3  = CtxUpdate{Name: "timeout3", Timeout: 3}
 	tGap         = Template{Name: "gap", Consumer: "C1", Service: "a", Providers: []string{"P2"}, Cap: 5, Timeout: 2, Repeated: true, Freq: 3, Total: -1}
 	tOne2        = Template{Name: "one2", Consumer: "C1", Service: "a", Providers: []string{"P1", "P2"}, Cap: 5, Timeout: 2}
 	tCapLow      = Template{Name: "caplow", Consumer: "C1", Service: "a", Providers: []string{"P1", "P2"}, Cap: 1, Timeout: 1, Repeated: true, Freq: 1, Total: 2}
@@ -29,11 +30,11 @@ func lifeRuns(tier string) []base {
 	mainO := AlphaOpts{RespKinds: []string{"ok", "bad", "noout"}, CtxOps: []string{"pause", "start", "kill"},
 		Updates: []CtxUpdate{updTotalUp, updCap1}, Withdraw: []string{"O1:", "O1:P1", "O2:", "O2:P2"}}
 	gapO := AlphaOpts{RespKinds: []string{"ok"}, CtxOps: []string{"pause", "start", "kill"},
-		Updates: []CtxUpdate{updFreq3Tot2, updTotalInf, updTimeout2}}
+		Updates: []CtxUpdate{updFreq3Tot2, updTotalInf, updTimeout2, updTimeout3}}
 	ctlO := AlphaOpts{RespKinds: []string{"ok"}, CtxOps: []string{"pause", "start", "kill"},
-		Updates: []CtxUpdate{updTotalUp, updTotalInf, updTimeout2, updFreq2, updFreq1Tot2}}
+		Updates: []CtxUpdate{updTotalUp, updTotalInf, updTimeout2, updTimeout3, updFreq2, updFreq1Tot2}}
 	modO := AlphaOpts{RespKinds: []string{"ok", "bad", "noout"}, ModOps: []string{"mpause", "mstart", "mkill"},
-		ModUpdates: []CtxUpdate{{Name: "total3", Total: 3}}}
+		ModUpdates: []CtxUpdate{{Name: "total3", Total: 3}, {Name: "thr1", Threshold: 1}, {Name: "thr2", Threshold: 2}}}
 	d, b, m := bump(tier, 8, 5, 2)
 	return []base{
 		{"life-main", func() *Scenario { return scLife(defaultParams(), []Template{tOne, tRep2, tPoor}, mainO, d, b, m) }},
@@ -189,7 +190,7 @@ func init() {
 	register(&CheckSpec{Prop: "C12", Runs: func(tier string) []RunSpec {
 		d, b, m := bump(tier, 8, 5, 2)
 		o := []Oracle{oracleC12{}}
-		modO := AlphaOpts{RespKinds: []string{"ok", "bad", "noout"}, ModOps: []string{"mpause", "mstart", "mkill"}, ModUpdates: []CtxUpdate{{Name: "total3", Total: 3}}}
+		modO := AlphaOpts{RespKinds: []string{"ok", "bad", "noout"}, ModOps: []string{"mpause", "mstart", "mkill"}, ModUpdates: []CtxUpdate{{Name: "thr1", Threshold: 1}, {Name: "thr2", Threshold: 2}}}
 		runs := []RunSpec{
 			{Name: "mod-callbacks", Sc: scMod(defaultParams(), []Template{tMod1, tMod2, tModPoor}, modO, d, b, m), Oracles: o, Mon: MonFlags{CB: true}},
 			{Name: "mod-callbacks-oneshot+cap", Sc: scMod(defaultParams(), []Template{tModOne, tModCap}, modO, d, b, m+1), Oracles: o, Mon: MonFlags{CB: true}},
@@ -220,7 +221,7 @@ func init() {
 		return runs
 	}})
 	register(&CheckSpec{Prop: "C16", Runs: func(tier string) []RunSpec {
-		return runsOf(lifeRuns(tier), []Oracle{oracleC16{}}, MonFlags{})
+		return runsOf(lifeRuns(tier), []Oracle{oracleC16{}}, MonFlags{Kill: true})
 	}})
 	register(&CheckSpec{Prop: "C05", Runs: func(tier string) []RunSpec {
 		d := 0
